@@ -261,6 +261,27 @@ struct G {
     }
 };
 
+// An Add whose dictionary holds an Add with coefficient 1 (or a Mul holding a Mul with exponent 1):
+// the public constructors can return such non-canonical objects when coefficients cancel to 1
+// (canonical-form matter, C03); cse() is not defined on them, they are not generated
+bool noncanonical_nesting(const Basic &b)
+{
+    if (is_a<Add>(b)) {
+        for (auto &p : down_cast<const Add &>(b).get_dict())
+            if (is_a<Add>(*p.first) && p.second->is_one())
+                return true;
+    }
+    if (is_a<Mul>(b)) {
+        for (auto &p : down_cast<const Mul &>(b).get_dict())
+            if (is_a<Mul>(*p.first) && eq(*p.second, *one))
+                return true;
+    }
+    for (auto &a : b.get_args())
+        if (noncanonical_nesting(*a))
+            return true;
+    return false;
+}
+
 // (B**-n)**e with non-integer e anywhere in the tree
 bool has_invpow(const Basic &b)
 {
@@ -480,7 +501,7 @@ void hx_gen(Rng &rng, const std::string &tier)
         bool bad = false;
         for (auto &e : v)
         {
-            bad = bad || has_invpow(*e) || has_big_exp(*e);
+            bad = bad || has_invpow(*e) || has_big_exp(*e) || noncanonical_nesting(*e);
             double nested = 0;
             double c = ecost(*e, nested);
             bad = bad || c > 400 || nested > 400;
